@@ -15,6 +15,9 @@ _Q_NOTE = ("Binding through the QueryFacade hook (explicit time). The service-le
 _S_NOTE = ("The real Service is run with a scripted handler (hook H4): the harness receives every HandlerIn and injects HandlerOut events on a paused tokio clock. "
            "Node ids are hashes of fixed keys (pool geometry); the Handler and the UDP tasks are not part of these runs.")
 META = {
+ "C11": dict(technique="TLA+ transcription of findnode_log2distance, the NODES distance filter / banning / multi-packet counting and the honest responder (NodesExchange.tla): pure-function obligations for all 257 distance classes plus exhaustive exploration of malicious packet sequences with TLC; TLC-simulated exchanges executed on the real service, with a second real node as the honest responder; reported records and the ban list judged by TLC against the specification's request state fed with the observed packets (C11.* formulas)",
+   text="Design: for every log2 class 0..256 the honest answer (single and split) is accepted completely and never banned; malicious sequences (totals 0..99, off-distance records, the requester's record, duplicates, up to 17 packets) satisfy AcceptedExact, BanIffOff, PacketCap, AfterDone. Code: lookups with targets at chosen distances from a peer (incl. adjacent ids -> [1,2,0] and target = peer -> [0]); answers built from the fixed peer pool by distance class; Discovered events and the process-global ban list observed after every packet.",
+   note=_S_NOTE + " Accepted records are observed through Event::Discovered (report_discovered_peers); records at low distances cannot be mined, low classes are exercised with own-record / empty answers, as an honest node would give."),
  "C14": dict(technique="TLA+ transcription of send_nodes_response (Serve.tla) with RLP/datagram size arithmetic, TLC-exhaustive over all record-size sequences; TLC-simulated FINDNODE/PING behaviours executed on the real service; each answer measured by really encrypting and encoding it, judged by TLC (C14.* monitor formulas)",
    text="Design: every sequence of record sizes {120,129,299,300} up to 7 (quick) / 9 and {129,300} up to 17 records, id lengths 0/2/8: every packet fits 1280 bytes and all records are sent. Code: generated tables (incl. 300-byte records), distance lists (empty, duplicates, unsorted, out of range, 0), id lengths and requester addresses; answers compared with the table observed before the request.",
    note=_S_NOTE),
